@@ -75,6 +75,7 @@ static CO_ERR COTParaStoreRead(struct CO_OBJ_T *obj, struct CO_NODE_T *node, voi
     if (CO_GET_SUB(obj->Key) == 0) {
         result = uint8->Read(obj, node, buffer, size);
     } else {
+        ASSERT_EQU_ERR(size, 4u, CO_ERR_BAD_ARG);
         pg = (CO_PARA *)(obj->Data);
         *(uint32_t *)buffer = pg->Value;
         result = CO_ERR_NONE;
